@@ -338,6 +338,31 @@ struct session
         }
         ev("Final").i("n", -1).i("text", ids().id("t:" + text_of(c))).emit();
     }
+
+    // two rollbacks in a row (k1 >= k2), optionally after a text round trip, then the run is resumed
+    void rollback_twice(std::vector<std::size_t> const& calls, std::size_t k1, std::size_t k2, bool reload_first)
+    {
+        start();
+        C c = fresh();
+        bool stopped = false;
+        c = segment(c, calls, t_none, false, stopped);
+        if (reload_first) c = reload(c, t_text);
+        for (std::size_t k : {k1, k2})
+        {
+            bool threw = false;
+            try { c.rollback(k); } catch (std::out_of_range const&) { threw = true; }
+            C probe = c;
+            K::prepare(probe);
+            ev("Rollback").i("k", (long long) k).i("threw", threw ? 1 : 0).i("text", ids().id("t:" + text_of(probe))).i("state", K::state_id(probe))
+                .i("n", (long long) c.results().size()).emit();
+        }
+        if (!stopped && k2 < calls.size())
+        {
+            std::vector<std::size_t> rest(calls.begin() + (long) k2, calls.end());
+            c = segment(c, rest, t_memory, false, stopped);
+        }
+        ev("Final").i("n", -1).i("text", ids().id("t:" + text_of(c))).emit();
+    }
 };
 
 // growth: make_*_chkpt(istream&) on an empty stream is the default checkpoint (documented by the tests for PLAIN)
@@ -400,6 +425,10 @@ static void run_cfg(rng& g, char const* ename, E const& engine, int variant, int
             if (rl && k < n && g.below(2)) rest[0] += 7; // a different continuation after the rollback
             s.rollback_history(calls, k, rl != 0, rest);
         }
+    // two rollbacks in a row: to j, then to a smaller (or the same) k
+    for (std::size_t j = 0; j <= n; ++j)
+        for (std::size_t k = 0; k <= j; ++k)
+            if (g.below(2) || (k == 0 && j > 0 && j < n)) s.rollback_twice(calls, j, k, (j + k) % 2 == 0 || k == 0);
     // far beyond the number of results (k + 1 wraps around): rejected like n + 1, nothing changes
     std::size_t const huge[4] = {n + 2, ~std::size_t(0), ~std::size_t(0) - 1, ~std::size_t(0) / 2 + 1};
     for (int i = 0; i != 4; ++i) s.rollback_history(calls, huge[i], i % 2 != 0, std::vector<std::size_t>());
